@@ -36,3 +36,12 @@ extra_text.append("(* nni_aio_start call sites: (file, function, result honoured
 extra_text.append("Definition AIO_START_SITES : list (string * string * bool) := [")
 extra_text.append(";\n".join('  ("%s"%%string, "%s"%%string, %s)' % (a, b, "true" if g else "false") for a, b, l, g in _sites) + " ].")
 Nat("AIO_START_SITE_COUNT", len(_sites), "number of nni_aio_start call sites outside tests/windows/tls")
+
+# ---- which form of the expire loop does the source have?  (repaired: an aio of the batch is
+#      re-examined when its turn comes and skipped when its deadline is not (any more) due) ----
+_a = src("src/core/aio.c")
+_loop = _a[_a.find("nni_aio_expire_loop(void *arg)"):]
+_loop = _loop[:_loop.find("\nvoid *\nnni_aio_get_prov_data")] if "\nvoid *\nnni_aio_get_prov_data" in _loop else _loop
+_batch = _loop[_loop.find("for (uint32_t i = 0; i < exp_idx; i++)"):]
+_fixed = bool(_re.search(r"if\s*\(\s*\(\s*!\s*q->eq_stop\s*\)\s*&&\s*\(\s*aio->a_expire\s*>=\s*now\s*\)\s*\)\s*\{\s*aio->a_expiring\s*=\s*false;", _re.sub(r"//[^\n]*|#ifdef NNG_VERIF.*?#endif|NNI_VERIF_AIO\([^;]*;", "", _batch, flags=_re.S)))
+extra_text.append("Definition C02_EXPIRE_RECHECK_FIXED : bool := %s.  (* aio.c nni_aio_expire_loop: batch entries are re-checked (still due?) when their turn comes *)" % ("true" if _fixed else "false"))
